@@ -337,7 +337,8 @@ func ParseSpsPpsFromSeqHeaderWithoutMalloc(payload []byte) (sps, pps []byte, err
 		return nil, nil, nazaerrors.Wrap(base.ErrShortBuffer)
 	}
 
-	numOfPps := int(payload[index] & 0x1F)
+	// numOfPictureParameterSets is a full byte (ISO/IEC 14496-15 5.2.4.1.1); only the sps count is a 5-bit field
+	numOfPps := int(payload[index])
 	index++
 	if numOfPps != 1 {
 		Log.Debugf("%s", hex.Dump(nazabytes.Prefix(payload, 128)))
@@ -650,7 +651,8 @@ func parseSpsPpsListFromSeqHeaderWithoutMalloc(payload []byte) (spsList, ppsList
 	if v8, err = b.ReadBits8(8); err != nil {
 		return nil, nil, err
 	}
-	numOfPps := int(v8 & 0x1F)
+	// numOfPictureParameterSets is a full byte (ISO/IEC 14496-15 5.2.4.1.1); only the sps count is a 5-bit field
+	numOfPps := int(v8)
 	ppsList = make([][]byte, numOfPps)
 
 	for j := 0; j < numOfPps; j++ {
